@@ -364,10 +364,19 @@ def run_subcheck(pid: str, sc: SubCheck, tier: str, seed: int, shard: int, nshar
                 else:
                     strat = sc.strategy(tier)
 
+                first = [True]
+
                 @hseed(dseed)
                 @_settings(n, sc.shrink)
                 @given(strat)
                 def _t(case):
+                    if first[0] and n <= 3:
+                        # Hypothesis always offers its simplest example first (all-zero matrices, first table entries). Where a shard has
+                        # only one to three examples that would be the whole budget: skip it there so the budget goes to generated inputs.
+                        first[0] = False
+                        ctx.count("harness:simplest-example-skipped")
+                        hypothesis.reject()
+                    first[0] = False
                     try:
                         sc.body(ctx, case)
                     except hypothesis.errors.UnsatisfiedAssumption:
